@@ -1,6 +1,6 @@
 // Vector kinds (C15, C16, C20): public API of ohsl::Vector only.
-//   vec.hist <v0> (<op> <args> ;)*      history on one vector: after every op its result (if any), P<class> if it
-//                                       panicked, then the state (size + elements)            [rat | f64 | cplx]
+//   vec.hist <v0> (<op> <args> ;)*      history on one vector: after every op its result (if any), P<class> if it panicked,
+//                                       then the state (size + elements) if the op is &mut or panicked [rat | f64 | cplx]
 //   vec.norms <v> <p>                   norm_1 norm_2 norm_p(p) norm_inf (last: panics on empty) [f64]
 //   vec.normlaws <u> <v> <c> <p>        the four norms of u, v, u+v, u*c                        [f64]
 //   vec.cx <v>                          conj, real, abs (Signed), norm_inf (last)              [cplx]
@@ -33,6 +33,10 @@ pub trait VX: Elt {
 impl VX for Rat { fn resize(v: &mut Vector<Rat>, n: usize) { v.resize(n); } }
 impl VX for f64 { fn resize(v: &mut Vector<f64>, n: usize) { v.resize(n); } }
 impl VX for Cmplx {}
+
+// the &mut self operations: the state is reported after them (and after every panic)
+const MUTATING: [&str; 18] = ["push", "push_front", "insert", "pop", "swap", "resize", "assign", "clear", "sort", "set",
+    "add_assign", "sub_assign", "add_assign_s", "sub_assign_s", "mul_assign_s", "div_assign_s", "clone_mut", "_"];
 
 fn step<T: VX>(v: &mut Vector<T>, op: &str, a: &mut Args, out: &mut Out) {
     match op {
@@ -116,7 +120,7 @@ pub fn run<T: VX>(kind: &str, a: &mut Args, out: &mut Out) {
                     out.toks.push(format!("P{}", cls));
                 }
                 while a.more() { if a.word() == ";" { break; } }
-                out.v(&v);
+                if r.is_err() || MUTATING.contains(&op) { out.v(&v); }
             }
         }
         "vec.ctor" => {
